@@ -26,14 +26,17 @@ TECHNIQUE = "abstract interpretation with an opaque estimator (uniform-shift ide
 CNA = "cnvlib.cnary.CopyNumArray"
 
 
-def table(style, par, with_low):
-    """exact table: chromosomes 1, 2, X (non-PAR), X (PAR), Y (+ a null-coverage bin on chromosome 1)"""
+def table(style, par, with_low, unsorted=False):
+    """exact table: chromosomes 1, 2, X (non-PAR), X (PAR), Y (+ a null-coverage bin on chromosome 1); `unsorted`: the second bin of
+    chromosome 1 comes after chromosome 2 (e.g. targets and antitargets concatenated without re-sorting)"""
     pref = "chr" if style else ""
     rows, names = [], []
     spec = [("a1", pref + "1", 5_000_000), ("a1b", pref + "1", 6_000_000), ("a2", pref + "2", 5_000_000), ("x", pref + "X", 50_000_000),
             ("parx", pref + "X", 100_000), ("y", pref + "Y", 20_000_000)]
     if with_low:
         spec.insert(2, ("low", pref + "1", 7_000_000))
+    if unsorted:
+        spec.append(spec.pop(1))
     for nm, chrom, start in spec:
         if nm == "low":
             lg = Term.sym("v_low", -INF, -16)
@@ -49,9 +52,9 @@ def d1(chk, prog):
     chk.clause("D1", "center_all adds one constant: minus estimator(per-chromosome estimates of the autosomal (+PAR-X) bins)")
     fi = prog.fn(f"{CNA}.center_all")
     tb = Table(chk, "uniform-shift", "center_all (by_chrom x skip_low x PAR genome x naming)", fi.loc(), fi.qn)
-    for by_chrom, skip_low, par, style in itertools.product([True, False], [False, True], [None, "grch38"], ["", "chr"]):
+    for by_chrom, skip_low, par, style, unsorted in itertools.product([True, False], [False, True], [None, "grch38"], ["", "chr"], [False, True]):
         W.reset()
-        g, names = table(style, par, True)
+        g, names = table(style, par, True, unsorted)
         before = list(g.data.cols["log2"].v)
         calls = []
 
@@ -67,9 +70,11 @@ def d1(chk, prog):
         shifts = [t_sub(T(a), T(b)) for a, b in zip(after, before)]
         uniform = all(same(s, shifts[0]) for s in shifts)
         used = [nm for nm in names if nm in ("a1", "a1b", "a2") or (nm == "parx" and par) or (nm == "low" and not skip_low)]
+        order = {nm: i for i, nm in enumerate(names)}
         sym = {nm: before[names.index(nm)] for nm in names}
         if by_chrom:
             groups = [[nm for nm in used if nm in ("a1", "a1b", "low")], [nm for nm in used if nm == "a2"]] + ([["parx"]] if par else [])
+            groups = [sorted(grp, key=order.get) for grp in groups]          # one group per chromosome name, rows in table order
             want_calls = [[sym[n] for n in grp] for grp in groups]
             ok_calls = len(calls) == len(want_calls) + 1 and all(len(c) == len(w) and all(same(a, b) for a, b in zip(c, w)) for c, w in zip(calls, want_calls)) \
                 and len(calls[-1]) == len(want_calls) and all(same(x, Term.sym(f"EST{i + 1}")) for i, x in enumerate(calls[-1]))
@@ -77,7 +82,7 @@ def d1(chk, prog):
             w = [sym[n] for n in used]
             ok_calls = len(calls) == 1 and len(calls[0]) == len(w) and all(same(a, b) for a, b in zip(calls[0], w))
         ok_shift = uniform and bool(calls) and same(shifts[0], t_neg(Term.sym(f"EST{len(calls)}")))
-        tb.cell(uniform and ok_calls and ok_shift, dict(by_chrom=by_chrom, skip_low=skip_low, par_genome=par, naming=style or "bare", uniform_shift=uniform,
+        tb.cell(uniform and ok_calls and ok_shift, dict(by_chrom=by_chrom, skip_low=skip_low, par_genome=par, naming=style or "bare", rows_unsorted=unsorted, uniform_shift=uniform,
                                                          shift=repr(shifts[0]), estimator_calls=[[repr(x) for x in c] for c in calls], estimated_bins=used))
     tb.done("centring is not one constant shift by the estimator of the autosomal bins (per chromosome first)")
     # nothing to centre on: no autosome-named chromosome -> all bins are used (documented fallback); empty -> no-op
